@@ -1,7 +1,7 @@
 /-
   Vt.Props.C01grid — the grid part of a full redraw (`Grid::write_contents_formatted`): the prefix
-  `ESC[m ESC[H ESC[J`, the loop over the lines, and the cursor when it is inside its line or in the
-  pending-wrap column after an occupied last column (`retype_last`).
+  `ESC[m ESC[H ESC[J`, what the loop over the lines needs, the two ways the emitter moves the receiver's cursor
+  (`Moves`), and re-typing the last character of a line (`retype_last`).  The cursor fix-up itself is in C01cursor.
 -/
 import Vt.Props.GridDraw
 import Vt.Props.C10b
@@ -199,37 +199,6 @@ theorem views_get {l1 l2 : List Cell} (h : l1.map view = l2.map view) (k : Nat) 
     Option.map_some, Option.some.injEq] at this
   exact this
 
-/-- **the grid part of a full redraw** when the source cursor is not at the pending-wrap position -/
-theorem grid_formatted_reproduces (hW : WOk W) {q : Parser} (hq : RecvOk W q) (Sg : Grid)
-    (hoff : Sg.scrollbackOffset = 0) (hsz : Sg.size = (rsOf q.ws).g.size)
-    (hS : SrcRows W Sg.size.cols Sg.rows) (hn : Sg.rows.length = Sg.size.rows)
-    (hrow : Sg.pos.row < Sg.size.rows) (hcol : Sg.pos.col < Sg.size.cols) :
-    ∃ bytes pa, Sg.writeContentsFormatted = .ok (bytes, pa) ∧
-      ∃ Rf, Emitted W cb q bytes Rf ∧ Rf.pen = pa ∧
-        RowsInv Sg.rows Sg.size.cols Sg.rows.length false Sg.pos Rf ∧
-        Rf.g.scrollbackOffset = (rsOf q.ws).g.scrollbackOffset := by
-  obtain ⟨R1, hem1, hpen1, hinv1, hoff1, _⟩ := prefix_drawn (cb := cb) hq Sg.rows (by rw [hn, hsz])
-  rw [← hsz] at hinv1
-  obtain ⟨out', pp', pa', R', eloop, hem', hpen', hinv', hoff', hwf'⟩ := rows_loop hW q hq.ready hS Sg.rows 0 false ⟨0, 0⟩
-    (Term.clearAttrs ++ Term.clearScreen) R1 rfl (Nat.zero_le _) (fun h => absurd h (Nat.lt_irrefl 0)) (fun _ => rfl)
-    hinv1 hem1
-  rw [hpen1] at eloop
-  -- the cursor
-  have hcond : (some pp' != some Sg.pos && decide (Sg.pos.col ≥ Sg.size.cols)) = false := by
-    have : ¬ Sg.pos.col ≥ Sg.size.cols := by omega
-    simp [this]
-  have hcur : Sg.writeCursorPositionFormatted (some pp') (some pa') = .ok (Term.moveFromTo pp' Sg.pos) := by
-    simp only [Grid.writeCursorPositionFormatted, hcond, Bool.false_eq_true, ↓reduceIte, Grid.moveOpt, pure_eq_ok]
-  have hu := hinv'.canvas.cols_u16
-  have hru := hinv'.canvas.rows_u16
-  have hgo := goto_eq hinv'.canvas pp' Sg.pos hinv'.pos (by rw [hinv'.nrows, hn]; exact hrow)
-    (by rw [hinv'.hcols]; exact hcol)
-  have hem2 := emitted_step W cb hq.ready hem' (step_moveFromTo W cb pp' Sg.pos
-    (by rw [hinv'.nrows, hn] at hru; omega) (by rw [hinv'.hcols] at hu; omega)) hgo
-  refine ⟨out' ++ Term.moveFromTo pp' Sg.pos, pa', ?_, { R' with g := withPos R'.g Sg.pos }, hem2, hpen',
-    rowsInv_withPos hinv' Sg.pos, hoff'.trans hoff1⟩
-  simp only [Grid.writeContentsFormatted, C19.visibleRows_offset0 Sg hoff, ok_bind, eloop, hcur, pure_eq_ok]
-
 theorem map_view_set_same {l : List Cell} {k : Nat} (hk : k < l.length) {c' : Cell} (h : view c' = view l[k]) :
     (l.set k c').map view = l.map view := by
   rw [List.map_set]
@@ -239,6 +208,33 @@ theorem map_view_set_same {l : List Cell} {k : Nat} (hk : k < l.length) {c' : Ce
   · subst hj; simp [hk, h]
   · simp [hj]
 
+/-- `mv to` are bytes that put the receiver's cursor at `to` (any position inside the screen) and change nothing
+else: `move_from_to(prev, to)` when the emitter knows where the cursor is, `move_to(to)` when it does not -/
+def Moves (q : Parser) (out : List Nat) (R : RS) (rows cols : Nat) (mv : Pos → List Nat) : Prop :=
+  ∀ to : Pos, to.row < rows → to.col < cols → Emitted W cb q (out ++ mv to) { R with g := withPos R.g to }
+
+theorem moves_rel {q : Parser} (hr : Ready q) {srows : List Row} {cols : Nat} {pp : Pos} {out : List Nat} {R : RS}
+    (hem : Emitted W cb q out R) (hinv : RowsInv srows cols srows.length false pp R) :
+    Moves (W := W) (cb := cb) q out R srows.length cols (Term.moveFromTo pp) := by
+  intro to h1 h2
+  have hcv := hinv.canvas
+  have hu := hcv.cols_u16
+  have hru := hcv.rows_u16
+  have hgo := goto_eq hcv pp to hinv.pos (by rw [hinv.nrows]; exact h1) (by rw [hinv.hcols]; exact h2)
+  exact emitted_step W cb hr hem (step_moveFromTo W cb pp to
+    (by rw [hinv.nrows] at hru; omega) (by rw [hinv.hcols] at hu; omega)) hgo
+
+theorem moves_abs {q : Parser} (hr : Ready q) {srows : List Row} {cols : Nat} {pp : Pos} {out : List Nat} {R : RS}
+    (hem : Emitted W cb q out R) (hinv : RowsInv srows cols srows.length false pp R) :
+    Moves (W := W) (cb := cb) q out R srows.length cols Term.moveTo := by
+  intro to h1 h2
+  have hcv := hinv.canvas
+  have hu := hcv.cols_u16
+  have hru := hcv.rows_u16
+  have hsp := setPos_eq hcv to (by rw [hinv.nrows]; exact h1) (by rw [hinv.hcols]; exact h2)
+  exact emitted_step W cb hr hem (step_moveTo W cb to
+    (by rw [hinv.nrows] at hru; omega) (by rw [hinv.hcols] at hu; omega)) (by simp only [hsp, ok_bind]; rfl)
+
 /-- **re-typing the last character of a line**: from any cursor position, `move ++ pen ++ character ++ pen back`
 leaves the receiver's cursor in the pending-wrap column of line `k`, and the line looks as before -/
 theorem retype_last (hW : WOk W) {q : Parser} (hr : Ready q) (Sg : Grid)
@@ -246,10 +242,11 @@ theorem retype_last (hW : WOk W) {q : Parser} (hr : Ready q) (Sg : Grid)
     {out : List Nat} {pp : Pos} {pa : Attrs} {R : RS}
     (hem : Emitted W cb q out R) (hpen : R.pen = pa) (hpawf : Attrs.wf pa)
     (hinv : RowsInv Sg.rows Sg.size.cols Sg.rows.length false pp R)
+    (mv : Pos → List Nat) (hmv : Moves (W := W) (cb := cb) q out R Sg.rows.length Sg.size.cols mv)
     (k : Nat) (hk : k < Sg.rows.length) (hocc : lastOcc Sg.rows[k].cells) :
     ∃ c cell, Sg.endOfRowPos k = .ok ⟨k, c⟩ ∧ (∀ site, Sg.drawingCellM site ⟨k, c⟩ = .ok cell) ∧
       cell.hasContents = true ∧ cell.contentsBytes = .ok (cell.contents.take cell.len) ∧
-      ∃ Rf, Emitted W cb q (out ++ (Term.moveFromTo pp ⟨k, c⟩ ++ cell.attrs.writeEscapeCodeDiff pa ++
+      ∃ Rf, Emitted W cb q (out ++ (mv ⟨k, c⟩ ++ cell.attrs.writeEscapeCodeDiff pa ++
               cell.contents.take cell.len ++ pa.writeEscapeCodeDiff cell.attrs)) Rf ∧ Rf.pen = pa ∧
         RowsInv Sg.rows Sg.size.cols Sg.rows.length false ⟨k, Sg.size.cols⟩ Rf ∧
         Rf.g.scrollbackOffset = R.g.scrollbackOffset := by
@@ -300,9 +297,7 @@ theorem retype_last (hW : WOk W) {q : Parser} (hr : Ready q) (Sg : Grid)
     obtain ⟨hk2, hvc2⟩ := views_get hvk (Sg.size.cols - 2) hc2
     obtain ⟨hk1, hvc1⟩ := views_get hvk (Sg.size.cols - 1) hc1
     obtain ⟨hfw, hfc⟩ := flags_of_view hvc2
-    have hgo := goto_eq hcv pp ⟨k, Sg.size.cols - 2⟩ hinv.pos hrr (by simp only; rw [hinv.hcols]; omega)
-    have hemA := emitted_step W cb hr hem (step_moveFromTo W cb pp ⟨k, Sg.size.cols - 2⟩
-      (by simp only; rw [hinv.nrows] at hru; omega) (by simp only; rw [hinv.hcols] at hu; omega)) hgo
+    have hemA := hmv ⟨k, Sg.size.cols - 2⟩ hk (by simp only; omega)
     have hemB := emitted_step W cb hr hemA
       (step_pen W cb Sg.rows[k].cells[Sg.size.cols - 2].attrs pa (hsok.wf _ hc2))
       (r' := { R with g := withPos R.g ⟨k, Sg.size.cols - 2⟩,
@@ -377,9 +372,7 @@ theorem retype_last (hW : WOk W) {q : Parser} (hr : Ready q) (Sg : Grid)
     -- the receiver
     obtain ⟨hk1, hvc⟩ := views_get hvk (Sg.size.cols - 1) hc1
     obtain ⟨hfw, hfc⟩ := flags_of_view hvc
-    have hgo := goto_eq hcv pp ⟨k, Sg.size.cols - 1⟩ hinv.pos hrr (by simp only; rw [hinv.hcols]; omega)
-    have hemA := emitted_step W cb hr hem (step_moveFromTo W cb pp ⟨k, Sg.size.cols - 1⟩
-      (by simp only; rw [hinv.nrows] at hru; omega) (by simp only; rw [hinv.hcols] at hu; omega)) hgo
+    have hemA := hmv ⟨k, Sg.size.cols - 1⟩ hk (by simp only; omega)
     have hemB := emitted_step W cb hr hemA
       (step_pen W cb Sg.rows[k].cells[Sg.size.cols - 1].attrs pa (hsok.wf _ hc1))
       (r' := { R with g := withPos R.g ⟨k, Sg.size.cols - 1⟩,
@@ -418,48 +411,5 @@ theorem retype_last (hW : WOk W) {q : Parser} (hr : Ready q) (Sg : Grid)
       rw [this]
       simpa [List.append_assoc] using hemD
     · exact hpen
-
-/-- **the grid part of a full redraw** when the source cursor is at the pending-wrap position of a line whose
-last column is occupied: the last character of the line is typed again to get the receiver's cursor there -/
-theorem grid_formatted_reproduces_pw (hW : WOk W) {q : Parser} (hq : RecvOk W q) (Sg : Grid)
-    (hoff : Sg.scrollbackOffset = 0) (hsz : Sg.size = (rsOf q.ws).g.size)
-    (hS : SrcRows W Sg.size.cols Sg.rows) (hn : Sg.rows.length = Sg.size.rows)
-    (hrow : Sg.pos.row < Sg.size.rows) (hcol : Sg.pos.col = Sg.size.cols)
-    (hocc : lastOcc (Sg.rows[Sg.pos.row]'(by omega)).cells) :
-    ∃ bytes pa, Sg.writeContentsFormatted = .ok (bytes, pa) ∧
-      ∃ Rf, Emitted W cb q bytes Rf ∧ Rf.pen = pa ∧
-        RowsInv Sg.rows Sg.size.cols Sg.rows.length false Sg.pos Rf ∧
-        Rf.g.scrollbackOffset = (rsOf q.ws).g.scrollbackOffset := by
-  obtain ⟨R1, hem1, hpen1, hinv1, hoff1, _⟩ := prefix_drawn (cb := cb) hq Sg.rows (by rw [hn, hsz])
-  rw [← hsz] at hinv1
-  obtain ⟨out', pp', pa', R', eloop, hem', hpen', hinv', hoff', hwf'⟩ := rows_loop hW q hq.ready hS Sg.rows 0 false ⟨0, 0⟩
-    (Term.clearAttrs ++ Term.clearScreen) R1 rfl (Nat.zero_le _) (fun h => absurd h (Nat.lt_irrefl 0)) (fun _ => rfl)
-    hinv1 hem1
-  rw [hpen1] at eloop
-  have hpawf : Attrs.wf pa' := hwf' (by rw [hpen1]; exact wf_default)
-  have hvis := C19.visibleRows_offset0 Sg hoff
-  by_cases hpp : pp' = Sg.pos
-  · -- the loop already left the cursor there
-    have hcur : Sg.writeCursorPositionFormatted (some pp') (some pa') = .ok [] := by
-      simp [Grid.writeCursorPositionFormatted, hpp, Grid.moveOpt, C19.moveFromTo_self]
-    refine ⟨out' ++ [], pa', ?_, R', by simpa using hem', hpen', ?_, hoff'.trans hoff1⟩
-    · simp only [Grid.writeContentsFormatted, hvis, ok_bind, eloop, hcur, pure_eq_ok]
-    · rw [← hpp]; exact hinv'
-  · -- re-type the last character of the cursor line
-    have hrl : Sg.pos.row < Sg.rows.length := by omega
-    obtain ⟨c, cell, hend, hdraw, hh, hbs, Rf, hemf, hpenf, hinvf, hofff⟩ := retype_last (cb := cb) hW hq.ready Sg hS hem' hpen' hpawf
-      hinv' Sg.pos.row hrl hocc
-    have hcond : (some pp' != some Sg.pos && decide (Sg.pos.col ≥ Sg.size.cols)) = true := by
-      have : ¬ pp' = Sg.pos := hpp
-      simp [this, hcol]
-    have hcur : Sg.writeCursorPositionFormatted (some pp') (some pa') =
-        .ok (Term.moveFromTo pp' ⟨Sg.pos.row, c⟩ ++ cell.attrs.writeEscapeCodeDiff pa' ++
-          cell.contents.take cell.len ++ pa'.writeEscapeCodeDiff cell.attrs) := by
-      simp only [Grid.writeCursorPositionFormatted, hcond, ↓reduceIte, Option.getD_some, hend, ok_bind, hdraw 415, hh, hbs,
-        Grid.moveOpt, pure_eq_ok]
-    refine ⟨_, pa', ?_, Rf, hemf, hpenf, ?_, hofff.trans (hoff'.trans hoff1)⟩
-    · simp only [Grid.writeContentsFormatted, hvis, ok_bind, eloop, hcur, pure_eq_ok]
-    · have : Sg.pos = ⟨Sg.pos.row, Sg.size.cols⟩ := by rw [← hcol]
-      rw [this]; exact hinvf
 
 end Vt.C01
